@@ -187,6 +187,10 @@ io_status_t MiniPacketTunnelIOGateway :: DoOutputImplementation(uint32 maxBytes)
                   memcpy(defBuf()->GetBuffer(), writeBuf, PACKET_HEADER_SIZE);
                   writeBuf  = defBuf()->GetBuffer();
                   writeSize = defBuf()->GetNumBytes();
+
+                  // Make sure the header says "deflated":  if this packet was held back earlier (because Write() returned 0) at a time when
+                  // deflating it didn't pay off, then its header in (_outputPacketBuffer) has been patched to say "not deflated", below.
+                  DefaultEndianConverter::Export(_sendPacketIDCounter|(((uint32)_sendCompressionLevel)<<24), &writeBuf[2*sizeof(uint32)]);
                }
                else defBuf.Reset();
             }
